@@ -1,71 +1,16 @@
 (* Recorded findings for C11 (findings_proposed/C11.txt).  Each theorem exhibits a grammatical WebVTT file on
    which the faithful model of ttconv.vtt.reader contradicts S: `judge f (print_file f) (to_model (print_file f))`
    lists the failed clause (2 exception, 20 region, 30 styled/timed text runs) together with the finding whose
-   trigger covers the cue.  The check re-runs the same inputs against the real code (harness/witnesses_c11.py).
+   trigger covers the cue.  One finding is left (7 ruby-structure); the others were repaired in the code and their
+   refuted theorems deleted (they no longer hold of the model).  The check re-runs the same inputs against the real code (harness/witnesses_c11.py).
    If this file stops compiling a finding is stale, which the check reports as such (it is not a violation). *)
 From Coq Require Import QArith.
 From TT Require Import Base.Prelude Model.VttTokenizer Model.VttReader Spec.VttSpec Model.VttCases.
-From TT Require Import Proofs.C11.Region.
 Local Open Scope Z_scope.
 
 Definition contradicts (f : vfile) (clause finding : Z) : Prop :=
   In (clause, finding) (judge f (print_file f) (to_model (print_file f))).
 Ltac witness := unfold contradicts; vm_compute; auto 10.
-
-(* WEBVTT / 00:01.000 --> 00:02.000 size:100% / x : region x = 2.5, width = 100 *)
-Definition w_region_not_clamped : vfile :=
-  mkFile [] [BCue (mkCue None (mkTs None 0 1 0) (mkTs None 0 2 0) [SetSize 100] [CText [120]])].
-Theorem C11_region_not_clamped_refuted : contradicts w_region_not_clamped 20 1.
-Proof. witness. Qed.
-
-(* … line:-1 : origin y = 104.3 %, height = -4.3 % *)
-Definition w_line_number_nonpositive : vfile :=
-  mkFile [] [BCue (mkCue None (mkTs None 0 1 0) (mkTs None 0 2 0) [SetLine (LineNum (-1)) None] [CText [120]])].
-Theorem C11_line_number_nonpositive_refuted : contradicts w_line_number_nonpositive 20 2.
-Proof. witness. Qed.
-
-(* … vertical:lr line:30%,center : origin x = 30 - 91.3/2 < 0 (extent_height used for origin_x) *)
-Definition w_vertical_line_center : vfile :=
-  mkFile [] [BCue (mkCue None (mkTs None 0 1 0) (mkTs None 0 2 0) [SetVertical VLr; SetLine (LinePct 30) (Some LaCenter)] [CText [120]])].
-Theorem C11_vertical_line_center_refuted : contradicts w_vertical_line_center 20 3.
-Proof. witness. Qed.
-
-(* the unconditional containment statement is false: *)
-Theorem C11_region_inside_refuted : exists cs, ~ inside_root (compute_region cs).
-Proof.
-  exists [[115;105;122;101;58;49;48;48;37]].      (* size:100% *)
-  intros H. apply inside_root_b_spec in H. vm_compute in H. discriminate.
-Qed.
-
-(* <v Tom &amp; Jerry>hello</v> : the text shown is "v& Jerry>hello" (annot_cref is an alias of data_cref) *)
-Definition w_annotation_charref : vfile :=
-  mkFile [] [BCue (mkCue None (mkTs None 0 1 0) (mkTs None 0 2 0) []
-                         [CTag (TgV [84;111;109;32;38;32;74;101;114;114;121]) [CText [104;101;108;108;111]]])].
-Theorem C11_annotation_charref_refuted : contradicts w_annotation_charref 30 4.
-Proof. witness. Qed.
-Theorem C11_annotation_charref_tokens :
-  tokenize [60;118;32;84;111;109;32;38;97;109;112;59;32;74;101;114;114;121;62;104;105] =
-  [TString [118;38;32;74;101;114;114;121;62;104;105]].
-Proof. vm_compute. reflexivity. Qed.
-
-(* cue 10 s - 20 s, <00:12.000>a<00:15.000>b : "b" is placed at 10 + 2 + 13 = 25 s instead of 15 s *)
-Definition w_timestamp_span_nesting : vfile :=
-  mkFile [] [BCue (mkCue None (mkTs None 0 10 0) (mkTs None 0 20 0) []
-                         [CTs (mkTs None 0 12 0); CText [97]; CTs (mkTs None 0 15 0); CText [98]])].
-Theorem C11_timestamp_span_nesting_refuted : contradicts w_timestamp_span_nesting 30 5.
-Proof. witness. Qed.
-(* <b>a<00:12.000>b</b>c : </b> closes the timestamp span, "c" stays bold *)
-Definition w_timestamp_swallows_end_tag : vfile :=
-  mkFile [] [BCue (mkCue None (mkTs None 0 10 0) (mkTs None 0 20 0) []
-                         [CTag TgB [CText [97]; CTs (mkTs None 0 12 0); CText [98]]; CText [99]])].
-Theorem C11_timestamp_swallows_end_tag_refuted : contradicts w_timestamp_swallows_end_tag 30 5.
-Proof. witness. Qed.
-
-(* a&lrm;b : html.unescape is applied to "&lrm" without the semicolon, only the legacy names decode: "a&lrmb" *)
-Definition w_charref_legacy_names_only : vfile :=
-  mkFile [] [BCue (mkCue None (mkTs None 0 1 0) (mkTs None 0 2 0) [] [CText [97]; CRef (RefNamed [108;114;109]); CText [98]])].
-Theorem C11_charref_legacy_names_only_refuted : contradicts w_charref_legacy_names_only 30 6.
-Proof. witness. Qed.
 
 (* <b><ruby>a<rt>b</rt></ruby></b> : TypeError (Span.push_child(Ruby)) *)
 Definition w_ruby_structure : vfile :=
@@ -73,12 +18,13 @@ Definition w_ruby_structure : vfile :=
 Theorem C11_ruby_structure_refuted : contradicts w_ruby_structure 2 7.
 Proof. witness. Qed.
 
-(* robustness outside the grammar: <rt> outside <ruby> raises AttributeError *)
-Theorem C11_rt_outside_ruby_refuted :
-  to_model [87;69;66;86;84;84;10;10;48;48;58;48;49;46;48;48;48;32;45;45;62;32;48;48;58;48;50;46;48;48;48;10;60;114;116;62;120;10]
-  = Raised ExAttribute.
-Proof. vm_compute. reflexivity. Qed.
+(* a timestamp inside a ruby base splits the base into two Rb elements; Rbc/Rtc then pair "a" with the ruby text and
+   leave "b" behind it: the runs come out as a, rt, b instead of a, b, rt *)
+Definition w_ruby_base_timestamp : vfile :=
+  mkFile [] [BCue (mkCue None (mkTs None 0 1 0) (mkTs None 0 9 0) []
+                         [CRuby [([CText [97]; CTs (mkTs None 0 2 0); CText [98]], [CText [99]])]])].
+Theorem C11_ruby_base_timestamp_refuted : contradicts w_ruby_base_timestamp 30 7.
+Proof. witness. Qed.
 
-Print Assumptions C11_region_not_clamped_refuted.
-Print Assumptions C11_region_inside_refuted.
-Print Assumptions C11_timestamp_span_nesting_refuted.
+Print Assumptions C11_ruby_structure_refuted.
+Print Assumptions C11_ruby_base_timestamp_refuted.
